@@ -426,6 +426,16 @@ Theorem c09_set_service :
 Proof. exact set_service. Qed.
 Print Assumptions c09_set_service.
 
+(* SendMsg applies no size limit of its own: on a live, open channel whose write succeeds every message is
+   written whatever its size, in particular requests and replies of up to exactly 1 MB, which the
+   receiving channel accepts (the limit is the receiver's: c09_reject_closes, c09_frame_safe).  With
+   c09_call_wire / c09_request_served / c09_complete_reply: a call or reply is never dropped locally
+   for its size. *)
+Theorem c09_send_any_size :
+  forall (r : rpc) (m : msg), dead r = false -> send_msg false true r m = (r, [EvSend m], true).
+Proof. exact send_any_size. Qed.
+Print Assumptions c09_send_any_size.
+
 (* The hypotheses are satisfiable and the statements are not vacuous: a concrete history.
    decode: a body is a message of type RESPONSE whose id is its first byte.  Two calls (ids 0, 1), then
    the reply to id 1 and the reply to id 0 arrive split over four reads, then a duplicate of reply 1. *)
